@@ -51,6 +51,24 @@ fn gen(a: &Args) {
         o.op(&format!("mono {} {}", z, z + 1));
         o.op(&format!("close {}", r.bits(64).max(2)));
     }
+    // thorough only: the real code walks the whole stated range itself (the theorem covers it on the
+    // model; this is the implementation side of the same claim, exhaustively)
+    if thorough {
+        o.case("sweeps");
+        let step = 1u64 << 27;
+        let mut lo = 1u64;
+        while lo <= (1u64 << 31) {
+            let hi = (lo + step - 1).min(1u64 << 31);
+            o.op(&format!("sweep {} {}", lo, hi));
+            lo = hi + 1;
+        }
+        let mut lo = 1u64;
+        while lo < (1u64 << 32) {
+            let hi = (lo + (1u64 << 28)).min(1u64 << 32);
+            o.op(&format!("monosweep {} {}", lo, hi));
+            lo = hi;
+        }
+    }
     // stream 2: every consumer of the reported value
     o.case("consumers");
     let n = if thorough { 40_000 } else { 4_000 };
@@ -108,6 +126,33 @@ fn step(_: &mut (), ws: &[&str]) -> String {
                 },
                 Err(e) => format!("err {:?}", e),
             }
+        }
+        "sweep" => {
+            let (mut fails, mut first) = (0u64, 0u64);
+            for s in n(1)..=n(2) {
+                if scaled_for_max_hash(max_hash_for_scaled(s)) != s {
+                    if fails == 0 {
+                        first = s;
+                    }
+                    fails += 1;
+                }
+            }
+            format!("fail={} first={}", fails, first)
+        }
+        "monosweep" => {
+            let (mut inv, mut first) = (0u64, 0u64);
+            let mut prev = max_hash_for_scaled(n(1));
+            for s in n(1) + 1..=n(2) {
+                let m = max_hash_for_scaled(s);
+                if m > prev {
+                    if inv == 0 {
+                        first = s;
+                    }
+                    inv += 1;
+                }
+                prev = m;
+            }
+            format!("fail={} first={}", inv, first)
         }
         "mono" => {
             let (a, b) = (n(1), n(2));
